@@ -1896,7 +1896,11 @@ func (c *Ctx) modPremises(name string, mods []modEntry, r, j string) (prem []str
 // new version that agrees with the old one outside the modifies set and outside objects allocated since loop entry.
 func (c *Ctx) havocLoop(s *State, mods []modEntry, allocBase string) {
 	if modsAll(mods) {
+		// a loop (or range-over-func body) that is DECLARED to modify everything: sound, and not "a call with an unspecified frame"
+		prev := c.havocAllDeclared
+		c.havocAllDeclared = true
 		c.havocAll(s)
+		c.havocAllDeclared = prev
 		return
 	}
 	names := map[string]string{}
